@@ -1,8 +1,257 @@
 (* C11 - File operations.  Only statements, each closed by [exact] of a lemma
-   proved in Proofs/FsProofs.v, with Print Assumptions beneath. *)
-From UV Require Import Lib.Base Model.Fs Proofs.FsProofs.
+   proved in Proofs/Fs*.v, with Print Assumptions beneath. *)
+From UV Require Import Lib.Base Model.Fs Proofs.FsProofs Proofs.FsRoutesProofs Proofs.FsLedgerProofs.
 
-Theorem C11_errno_mapping_leaf :
-  forall e n, result_of (RErr e) = (- e)%Z /\ result_of (ROk n) = Z.of_nat n.
-Proof. intros e n. split; [exact (result_of_err e) | exact (result_of_ok n)]. Qed.
-Print Assumptions C11_errno_mapping_leaf.
+(* ================= (b) buffer arithmetic ================= *)
+
+(* uv_fs_read: for any number of buffers (above IOV_MAX included) of any
+   sizes (0 included), any offset: the one system call offers the first
+   min(nbufs, iovmax) buffers at the given offset (or none: the descriptor's
+   position); when the kernel delivers n bytes, every buffer keeps its length,
+   the buffers read in order hold exactly those n file bytes followed by their
+   old contents, the result is n, the position moves by n iff no offset was given. *)
+Theorem C11_read_fills_in_order :
+  forall (A : Type) (iovmax : nat) (bufs : list (buf A)) (off : Z) (file : list A) (pos n : nat)
+         (c : rwcall A),
+  fs_read_call iovmax bufs off = Some c ->
+  let start := if (off <? 0)%Z then pos else Z.to_nat off in
+  n <= total_len (riov c) -> n <= length (skipn start file) ->
+  exists bufs',
+    fs_read iovmax bufs off file pos (AOk n) =
+      (ROk n, bufs', if (off <? 0)%Z then pos + n else pos) /\
+    map (@length A) bufs' = map (@length A) bufs /\
+    concat bufs' = firstn n (skipn start file) ++ skipn n (concat bufs) /\
+    length (riov c) <= iovmax /\ riov c = firstn (length (riov c)) bufs.
+Proof. intros A. exact (@read_fills_in_order A). Qed.
+Print Assumptions C11_read_fills_in_order.
+
+(* the hypothesis is satisfiable: a request with buffers always makes a call *)
+Theorem C11_read_makes_a_call :
+  forall (A : Type) iovmax (bufs : list (buf A)) off,
+  1 <= iovmax -> bufs <> [] -> fs_read_call iovmax bufs off <> None.
+Proof. intros A. exact (@read_call_exists A). Qed.
+Print Assumptions C11_read_makes_a_call.
+
+(* uv__fs_write_all + uv__fs_buf_offset against ANY system (state-passing
+   oracle [sys]: short counts, EINTR, errors in any pattern) whose counts do not
+   exceed the request: the accepted bytes are, in order, exactly the first
+   [wcount] bytes of the list; every call starts at the offset where the
+   previous one stopped (or uses the descriptor's position throughout); no call
+   carries more than iovmax buffers; the value returned is the number of bytes
+   written, or the error when nothing was written. *)
+Theorem C11_write_all_prefix :
+  forall (A St : Type) (sys : St -> rwcall A -> answer * St)
+         (fuel iovmax : nat) (s : St) (bufs : list (buf A)) (off : Z) r lg s',
+  write_all sys fuel iovmax s bufs off = (r, lg, s') ->
+  honest lg ->
+  written lg = firstn (wcount lg) (concat bufs) /\
+  wcount lg <= total_len bufs /\
+  offsets_ok off lg /\
+  Forall (fun w => length (riov (fst w)) <= iovmax) lg /\
+  (forall t, r = WDone (ROk t) -> t = wcount lg) /\
+  (forall e, r = WDone (RErr e) -> wcount lg = 0).
+Proof.
+  intros A St sys fuel iovmax s bufs off r lg s' H Hh.
+  destruct (write_all_prefix_gen sys fuel iovmax s bufs off 0 r lg s' H Hh)
+    as (H1 & H2 & H3 & H4 & H5 & H6).
+  repeat split; auto. intros e He. exact (proj2 (H6 e He)).
+Qed.
+Print Assumptions C11_write_all_prefix.
+
+(* Full statement "every byte is written unless the system reports an error":
+   refuted.  1024 empty buffers followed by one byte, writev(1024 empty) = 0:
+   uv__fs_write_all takes the 0 for "nothing more to do" and returns 0. *)
+Definition write_complete_stmt (iovmax : nat) : Prop :=
+  forall (fuel : nat) (ans : list answer) (bufs : list (buf nat)) (off : Z) x lg rest,
+  write_all sys_list fuel iovmax ans bufs off = (WDone x, lg, rest) ->
+  honest lg -> progress lg -> x = ROk (total_len bufs).
+
+Theorem C11_write_all_complete_refuted : ~ write_complete_stmt 1024.
+Proof.
+  intros H.
+  specialize (H 1 [AOk 0] (repeat [] 1024 ++ [[7]]) 0%Z (ROk 0)
+                [(mkCall KPosVec (repeat [] 1024) 0%Z, AOk 0)] []).
+  assert (E : ROk 0 = ROk (total_len (repeat ([] : buf nat) 1024 ++ [[7]]))).
+  { apply H.
+    - vm_compute. reflexivity.
+    - repeat constructor.
+    - constructor; [|constructor]. simpl. intros Hlt. exfalso. revert Hlt. vm_compute. lia. }
+  revert E. vm_compute. discriminate.
+Qed.
+Print Assumptions C11_write_all_complete_refuted.
+
+(* What does hold: when no run of iovmax empty buffers is followed by data,
+   the system never fails (EINTR aside) and never answers 0 to a non-empty
+   request, then - for every short-write pattern - all bytes are written and
+   the count returned is their number. *)
+Theorem C11_write_all_complete_partial :
+  forall (A St : Type) (sys : St -> rwcall A -> answer * St)
+         (fuel iovmax : nat) (s : St) (bufs : list (buf A)) (off : Z) x lg s',
+  1 <= iovmax ->
+  write_all sys fuel iovmax s bufs off = (WDone x, lg, s') ->
+  honest lg -> progress lg -> no_empty_window iovmax bufs ->
+  x = ROk (total_len bufs) /\ wcount lg = total_len bufs /\ written lg = concat bufs.
+Proof.
+  intros A St sys fuel iovmax s bufs off x lg s' Hi H Hh Hp Hw.
+  destruct (write_all_complete_gen sys fuel iovmax s bufs off 0 x lg s' Hi H Hh Hp Hw) as [H1 H2].
+  destruct (write_all_prefix_gen sys fuel iovmax s bufs off 0 _ lg s' H Hh) as (H3 & _).
+  repeat split; auto. rewrite H3, H2. apply firstn_all.
+Qed.
+Print Assumptions C11_write_all_complete_partial.
+
+(* the side condition holds for every list that fits one call and for every
+   list without empty buffers *)
+Theorem C11_no_empty_window_cases :
+  forall (A : Type) iovmax (bufs : list (buf A)),
+  (length bufs <= iovmax -> no_empty_window iovmax bufs) /\
+  (1 <= iovmax -> Forall (fun b => b <> []) bufs -> no_empty_window iovmax bufs).
+Proof. intros A iovmax bufs. split; [exact (wnd_short iovmax bufs) | exact (wnd_nonempty iovmax bufs)]. Qed.
+Print Assumptions C11_no_empty_window_cases.
+
+(* hypotheses satisfiable: two short writes and an EINTR, everything written *)
+Example C11_write_all_example :
+  write_all sys_list 4 1024 [AOk 3; AErr EINTR; AOk 1; AOk 4] [[1;2;3;4;5]; []; [6;7;8]] 10%Z
+  = (WDone (ROk 8),
+     [(mkCall KPosVec [[1;2;3;4;5]; []; [6;7;8]] 10%Z, AOk 3);
+      (mkCall KPosVec [[4;5]; []; [6;7;8]] 13%Z, AErr EINTR);
+      (mkCall KPosVec [[4;5]; []; [6;7;8]] 13%Z, AOk 1);
+      (mkCall KPosVec [[5]; []; [6;7;8]] 14%Z, AOk 4)], []).
+Proof. vm_compute. reflexivity. Qed.
+
+(* ================= (a) dispatch and routes ================= *)
+
+(* Per operation: the SQE filled in by uv__iou_fs_* means, by the documented
+   meaning of its opcode, the call uv__fs_work makes (ftruncate: only for
+   length 0, see below). *)
+Theorem C11_sqe_meaning :
+  forall kv op s, sqe_of kv op = Some s -> api_check op = None -> ring_exact op ->
+  norm (kernel_of_sqe s) = norm (work op).
+Proof. exact sqe_meaning. Qed.
+Print Assumptions C11_sqe_meaning.
+
+(* uv__iou_fs_ftruncate: the length is in the wrong SQE field. *)
+Theorem C11_routes_agree_ftruncate_refuted :
+  forall kv fd off s, sqe_of kv (OFtruncate fd off) = Some s -> off <> 0%Z ->
+  norm (kernel_of_sqe s) <> norm (work (OFtruncate fd off)) /\
+  ((off mod two32 <> 0)%Z -> kernel_of_sqe s = PInvalid IORING_OP_FTRUNCATE).
+Proof. exact sqe_ftruncate_wrong. Qed.
+Print Assumptions C11_routes_agree_ftruncate_refuted.
+
+(* The three routes give the same (result, output, state), for every oracle
+   [posix] that does not distinguish legacy entry points from their *at/vector
+   forms, every state, kernel version and operation other than UV_FS_WRITE and
+   ftruncate(len <> 0), provided the kernel's answer is not one the pool
+   treats specially (EINTR, EOPNOTSUPP, EINPROGRESS on close, statx unusable). *)
+Theorem C11_routes_agree :
+  forall (fs out : Type) (posix : pcall -> fs -> pres out * fs) (no_out : out),
+  (forall c st, posix c st = posix (norm c) st) ->
+  forall kv fuel op st,
+  ring_exact op -> is_write op = false ->
+  special out op (fst (posix (work op) st)) = false ->
+  (-1 <= rc out (fst (posix (work op) st)))%Z ->
+  run fs out posix no_out RRing true kv fuel op st = run fs out posix no_out RPool true kv fuel op st /\
+  run fs out posix no_out RSync true kv fuel op st = run fs out posix no_out RPool true kv fuel op st.
+Proof. exact routes_agree. Qed.
+Print Assumptions C11_routes_agree.
+
+Theorem C11_sync_is_pool :
+  forall (fs out : Type) (posix : pcall -> fs -> pres out * fs) (no_out : out) ring_ok kv fuel op st,
+  run fs out posix no_out RSync ring_ok kv fuel op st = run fs out posix no_out RPool ring_ok kv fuel op st.
+Proof. exact sync_is_pool. Qed.
+Print Assumptions C11_sync_is_pool.
+
+Theorem C11_ring_falls_back :
+  forall (fs out : Type) (posix : pcall -> fs -> pres out * fs) (no_out : out) ring_ok kv fuel op st,
+  takes_ring ring_ok kv op = false ->
+  run fs out posix no_out RRing ring_ok kv fuel op st = run fs out posix no_out RPool ring_ok kv fuel op st.
+Proof. exact ring_falls_back. Qed.
+Print Assumptions C11_ring_falls_back.
+
+Theorem C11_ring_eopnotsupp_reposts :
+  forall (fs out : Type) (posix : pcall -> fs -> pres out * fs) (no_out : out) fuel op s st r st',
+  (forall o, kernel_of_sqe s <> PInvalid o) ->
+  posix (kernel_of_sqe s) st = (r, st') -> rc out r = (-1)%Z -> perrno out r = EOPNOTSUPP ->
+  ring_complete fs out posix no_out fuel op s st = fs_work fs out posix no_out fuel op st'.
+Proof. exact ring_eopnotsupp_reposts. Qed.
+Print Assumptions C11_ring_eopnotsupp_reposts.
+
+(* UV_FS_WRITE: agreement only when the kernel takes the whole request at once
+   or refuses it ... *)
+Theorem C11_write_routes_agree_partial :
+  forall (fs out : Type) (posix : pcall -> fs -> pres out * fs) (no_out : out),
+  (forall c st, posix c st = posix (norm c) st) ->
+  forall kv fuel fd bufs off st,
+  let op := OWrite fd bufs off in
+  bufs <> [] -> length bufs <= IOV_MAX -> Forall (fun b => b <> []) bufs ->
+  let r := fst (posix (work op) st) in
+  (rc out r = Z.of_nat (total_len bufs) \/
+   (rc out r = (-1)%Z /\ perrno out r <> EINTR /\ perrno out r <> EOPNOTSUPP)) ->
+  res_state fs out (run fs out posix no_out RRing true kv (S fuel) op st) =
+  res_state fs out (run fs out posix no_out RPool true kv (S fuel) op st).
+Proof. exact write_routes_agree_partial. Qed.
+Print Assumptions C11_write_routes_agree_partial.
+
+(* ... and not otherwise: under a short-write oracle the ring (one writev)
+   and the pool (uv__fs_write_all) differ. *)
+Theorem C11_write_routes_agree_refuted :
+  exists (posix : pcall -> list byte -> pres unit * list byte),
+    (forall c st, posix c st = posix (norm c) st) /\
+    exists kv fuel fd bufs off st,
+      bufs <> [] /\ length bufs <= IOV_MAX /\ Forall (fun b => b <> []) bufs /\
+      res_state (list byte) unit (run (list byte) unit posix tt RRing true kv fuel (OWrite fd bufs off) st) <>
+      res_state (list byte) unit (run (list byte) unit posix tt RPool true kv fuel (OWrite fd bufs off) st).
+Proof. exact write_routes_agree_refuted. Qed.
+Print Assumptions C11_write_routes_agree_refuted.
+
+(* r == -1 -> -errno, otherwise r: the value every route stores in req->result *)
+Theorem C11_errno_mapping :
+  forall (out : Type) (r : pres out) e n,
+  ((rc out r = (-1)%Z -> result_z out r = (- perrno out r)%Z) /\
+   (rc out r <> (-1)%Z -> result_z out r = rc out r)) /\
+  result_of (RErr e) = (- e)%Z /\ result_of (ROk n) = Z.of_nat n.
+Proof.
+  intros out r e n. split; [exact (errno_mapping out r)|].
+  split; [exact (result_of_err e) | exact (result_of_ok n)].
+Qed.
+Print Assumptions C11_errno_mapping.
+
+(* ================= (c) ownership ================= *)
+
+Theorem C11_cleanup_releases_all :
+  forall k cb big stt,
+  has_entries k = false -> valid k cb stt = true -> statx_fallback_ok k stt = false ->
+  cleaned k cb big stt.
+Proof. exact cleanup_releases_all. Qed.
+Print Assumptions C11_cleanup_releases_all.
+
+(* the excluded state: ring statx answered -EOPNOTSUPP, the pool retry
+   succeeds and overwrites req->ptr: the struct statx stays allocated *)
+Theorem C11_cleanup_releases_all_refuted :
+  forall n,
+  let '(q, h) := reach KStat true false (LDoneRing true true n) (h0_of KStat) in
+  let '(q1, h1) := req_cleanup q h in
+  live h1 = [BkStatx].
+Proof. exact cleanup_statx_fallback_leaks. Qed.
+Print Assumptions C11_cleanup_releases_all_refuted.
+
+Theorem C11_cleanup_entries_failed :
+  forall k cb big stt,
+  has_entries k = true -> valid k cb stt = true ->
+  match stt with LEarly | LCancelled | LDonePool false _ => True | _ => False end ->
+  cleaned k cb big stt.
+Proof. exact cleanup_entries_failed. Qed.
+Print Assumptions C11_cleanup_entries_failed.
+
+(* scandir/readdir with live entries: finite sweep, n <= 6 entries, every
+   number j <= n + 1 of uv_fs_scandir_next calls (bound in the statement) *)
+Theorem C11_cleanup_entries_bounded :
+  forall n cb big k stt, In n (seq 0 7) -> In (k, stt) (entry_states n) ->
+  cleaned_b k cb big stt = true.
+Proof. exact cleanup_entries_bounded. Qed.
+Print Assumptions C11_cleanup_entries_bounded.
+
+(* any state, any heap: a second uv_fs_req_cleanup changes nothing *)
+Theorem C11_cleanup_any_state :
+  forall q h, let '(q1, h1) := req_cleanup q h in req_cleanup q1 h1 = (q1, h1).
+Proof. exact cleanup_idempotent. Qed.
+Print Assumptions C11_cleanup_any_state.
